@@ -131,8 +131,10 @@ Apply(e) ==
     [] k = "obs_marks" ->
          [s EXCEPT !.marks = {[t |-> e.insts[i][1], marked |-> (e.insts[i][2] = 1), anc |-> e.insts[i][3]] :
                                 i \in DOMAIN e.insts}]
-    [] k = "lemit" ->
-         [s EXCEPT !.emitted = Append(@, e.m)]
+    [] k = "obs_ctxstore" ->   \* keys + stored metadata of the same request run under two different contexts
+         [s EXCEPT !.envok = IF e.a # e.b THEN @ \cup {<<0, "context-influenced-cache-keys-or-stored-entries">>} ELSE @]
+    [] k = "lemit" ->     \* C19 speaks of logger records on every backend, of stdout / stderr lines under a process backend
+         [s EXCEPT !.emitted = IF st.cfg.backend = "serial" /\ e.k \in {"P", "E"} THEN @ ELSE Append(@, e.m)]
     [] k = "obs_logs" ->
          [s EXCEPT !.obsLogs = TRUE, !.delivered = e.delivered]
     [] OTHER -> s
